@@ -1080,6 +1080,9 @@ where
             .get(FRAGMENT)
             .map(|ident| &*ident.sym == name)
             .unwrap_or_default()
+            // `<Fragment>` always denotes Vue's Fragment (see `transform_tag`),
+            // whether or not it has been imported yet
+            && !(name == FRAGMENT && matches!(element_name, JSXElementName::Ident(..)))
             && name != KEEP_ALIVE;
 
         if matches!(element_name, JSXElementName::JSXMemberExpr(..)) {
